@@ -261,6 +261,11 @@ def wl_posterior(ctx, rng, rounds=1):
         sigma = float(np.mean(mt)) * 10 ** rng.uniform(-3.5, -2.0) * rng.uniform(0.5, 2.0, K)
         y = mt + sigma * rng.normal(0, 1, K)
         obs, _ = L.make_observation(rng, layout, y, sigma, shuffle=bool(rng.random() < 0.5))
+        # the stored binned spectrum is row by row the observation's: bins in the observation's own row order (two bins
+        # that share a centre may come in either order)
+        layout = dict(layout, obs_c=np.array(obs.wavenumberGrid, dtype=float), obs_w=np.array(obs.binWidths, dtype=float))
+        if layout.get('tied_centres'):
+            ctx.observe('bins:two-share-a-centre')
         # ---- the designed sample set
         N = int([1, 2, 3, 10, 200, 0, 0][ctx.case['index'] % 7] or rng.integers(4, 60))
         two = layout_kind in ('multimodal-2-modes-equal', 'multimodal-2-modes-ragged', 'cluster-2-equal', 'cluster-2-ragged')
@@ -430,7 +435,7 @@ def judge_solution(ctx, opt, sol, k, x, w, ll, decls, fit_names, spec, layout, d
         ctx.close('spectrum-at-map:native', S['native_wngrid'], sh['wn'], 0.0, what='grid', **base)
         if np.shape(S['native_spectrum']) == sh['depth'].shape and np.all(np.isfinite(sh['depth'])):
             ctx.close('spectrum-at-map:native', S['native_spectrum'], sh['depth'], 1e-9, **base)
-            mb, tot = L.bin_ref(sh['wn'], sh['depth'], layout['c'], layout['w'])
+            mb, tot = L.bin_ref(sh['wn'], sh['depth'], layout.get('obs_c', layout['c']), layout.get('obs_w', layout['w']))
             ctx.close('spectrum-at-map:binned', S['binned_spectrum'], mb, 1e-9, **base)
         elif not np.all(np.isfinite(sh['depth'])):
             ctx.event('domain-skip:shadow-spectrum-not-finite')
